@@ -277,20 +277,61 @@ def cargo_build(ctx, crate, features=None, variant=None, profile="release"):
 
 # ----------------------------------------------------------------------------- line servers
 
-def run_lines(binary, reqs, timeout=1800, cwd=None, env=None, args=()):
+STALL = int(os.environ.get("VERIF_STALL_S", "30"))   # a line server that answers nothing for this long is taken to hang
+
+
+def run_lines(binary, reqs, timeout=1800, cwd=None, env=None, args=(), stall=None):
     """Feed JSON requests (one per line) to a line server, return (responses, crash_info).
-    crash_info is None when every request was answered."""
-    data = "\n".join(json.dumps(r, ensure_ascii=False) for r in reqs) + "\n"
+    crash_info is None when every request was answered.  The server is killed when the whole batch exceeds `timeout`
+    or when it produces no further answer for `stall` seconds (a request that hangs): crash_info["timeout"] is then True."""
+    import threading, time as _t
+    stall = 10 ** 9 if not stall else stall        # only the Rust line servers (which flush every answer) are watched for stalls
+    data = ("\n".join(json.dumps(r, ensure_ascii=False) for r in reqs) + "\n").encode("utf-8")
     e = dict(ENV)
     if env:
         e.update(env)
-    try:
-        p = subprocess.run([binary, *args], input=data.encode("utf-8"), stdout=subprocess.PIPE, stderr=subprocess.PIPE,
-                           timeout=timeout, cwd=cwd, env=e)
-        rc, out, err = p.returncode, p.stdout, p.stderr
-        timed_out = False
-    except subprocess.TimeoutExpired as ex:
-        rc, out, err, timed_out = -999, ex.stdout or b"", ex.stderr or b"", True
+    p = subprocess.Popen([binary, *args], stdin=subprocess.PIPE, stdout=subprocess.PIPE, stderr=subprocess.PIPE, cwd=cwd, env=e)
+    chunks, errs = [], []
+    state = {"last": _t.time(), "lines": 0}
+
+    def feed():
+        try:
+            p.stdin.write(data)
+            p.stdin.close()
+        except Exception:
+            pass
+
+    def read_out():
+        for line in p.stdout:
+            chunks.append(line)
+            state["last"] = _t.time()
+            state["lines"] += 1
+
+    def read_err():
+        while True:
+            b = p.stderr.read(65536)
+            if not b:
+                break
+            errs.append(b)
+            if sum(len(x) for x in errs) > 4_000_000:
+                del errs[:-4]
+    ts = [threading.Thread(target=f, daemon=True) for f in (feed, read_out, read_err)]
+    for t in ts:
+        t.start()
+    t0 = _t.time()
+    timed_out = False
+    while p.poll() is None:
+        _t.sleep(0.02 if _t.time() - t0 < 2 else 0.2)
+        now = _t.time()
+        if now - t0 > timeout or (now - state["last"] > stall and state["lines"] < len(reqs)):
+            timed_out = True
+            p.kill()
+            break
+    p.wait()
+    for t in ts[1:]:
+        t.join(timeout=10)
+    rc = -999 if timed_out else p.returncode
+    out, err = b"".join(chunks), b"".join(errs)
     lines = [l for l in out.decode("utf-8", "replace").split("\n") if l.strip()]
     resps = []
     for l in lines:
@@ -309,8 +350,9 @@ def run_lines_resilient(binary, reqs, timeout=1800, cwd=None, env=None, args=(),
     out = []
     rest = list(reqs)
     restarts = 0
+    hangs = 0
     while rest:
-        resps, crash = run_lines(binary, rest, timeout=timeout, cwd=cwd, env=env, args=args)
+        resps, crash = run_lines(binary, rest, timeout=timeout, cwd=cwd, env=env, args=args, stall=STALL)
         if crash is None:
             out += resps
             break
@@ -322,6 +364,12 @@ def run_lines_resilient(binary, reqs, timeout=1800, cwd=None, env=None, args=(),
         out.append({"crash": {"rc": crash["rc"], "timeout": crash["timeout"], "stderr": crash["stderr"][-400:]}})
         rest = rest[k + 1:]
         restarts += 1
+        if crash["timeout"]:
+            hangs += 1
+            if hangs >= 2:
+                # every hang costs a stall period: after the second one the rest of the batch is not run (each entry says so)
+                out += [{"crash": {"rc": None, "timeout": True, "not_run_after_repeated_hangs": True}} for _ in rest]
+                break
         if restarts > max_restarts:
             raise HarnessError("line server keeps crashing: " + json.dumps(crash)[:800])
     return out
